@@ -187,6 +187,11 @@ def mk_region(rng, n, width, channels, rate):
 
 def run_shard(ctx):
     conf = TIERS[ctx.tier]
+    if ctx.shard == ctx.nshards - 1 and not ctx.replay:
+        # the repository's own 579 tests as one more workload, with the passive region-slicing monitor riding on every call they make
+        from .. import repotests
+
+        repotests.run(ctx, "region-slice")
     rng = ctx.rng("exh")
     bounds = [None] + list(range(-9, 10))
     idx = 0
@@ -266,7 +271,7 @@ def replay(ctx, case):
 def inconclusive(merged, tier):
     c = merged["counters"]
     need = ["sample_slices", "sample_slices_negative_bound", "seconds_slices", "millis_slices", "millis_vs_seconds_compared",
-            "type_error_cases", "exhaustive_sample_slices", "slices_through_a_temporary_region", "kept_views_checked"]
+            "type_error_cases", "exhaustive_sample_slices", "slices_through_a_temporary_region", "kept_views_checked", "repo_tests_region_slices_checked"]
     return [f"monitor never observed {k}" for k in need if c.get(k, 0) == 0]
 
 
